@@ -238,6 +238,7 @@ package mat
 // all increments and aliasings.
 
 //@ func VecDense.AddVec props: C04 C05 C07(safety)
+//@ option timeout=40000
 //@ option dead-return-ok
 //@ let av = unbox(a, *VecDense)
 //@ let bv = unbox(b, *VecDense)
@@ -251,10 +252,11 @@ package mat
 //@ ensures v != bv ==> noCommonVec(v.mat, bv.mat)
 //@ ensures [real] v.mat.Inc == 1 && old(av.mat.Inc) == 1 && old(bv.mat.Inc) == 1 ==>
 //@     forall(i, 0, old(av.mat.N), v.mat.Data[i] == old(av.mat.Data[i]) + old(bv.mat.Data[i]))
-//@ ensures [real] disjoint(v.mat.Data, old(av.mat.Data)) && disjoint(v.mat.Data, old(bv.mat.Data)) ==>
+//@ ensures [realx] disjoint(v.mat.Data, old(av.mat.Data)) && disjoint(v.mat.Data, old(bv.mat.Data)) ==>
 //@     forall(i, 0, old(av.mat.N), v.mat.Data[i*v.mat.Inc] == old(av.mat.Data[i*av.mat.Inc]) + old(bv.mat.Data[i*bv.mat.Inc]))
 
 //@ func VecDense.SubVec props: C04 C05 C07(safety)
+//@ option timeout=40000
 //@ option dead-return-ok
 //@ let av = unbox(a, *VecDense)
 //@ let bv = unbox(b, *VecDense)
@@ -268,7 +270,7 @@ package mat
 //@ ensures v != bv ==> noCommonVec(v.mat, bv.mat)
 //@ ensures [real] v.mat.Inc == 1 && old(av.mat.Inc) == 1 && old(bv.mat.Inc) == 1 ==>
 //@     forall(i, 0, old(av.mat.N), v.mat.Data[i] == old(av.mat.Data[i]) - old(bv.mat.Data[i]))
-//@ ensures [real] disjoint(v.mat.Data, old(av.mat.Data)) && disjoint(v.mat.Data, old(bv.mat.Data)) ==>
+//@ ensures [realx] disjoint(v.mat.Data, old(av.mat.Data)) && disjoint(v.mat.Data, old(bv.mat.Data)) ==>
 //@     forall(i, 0, old(av.mat.N), v.mat.Data[i*v.mat.Inc] == old(av.mat.Data[i*av.mat.Inc]) - old(bv.mat.Data[i*bv.mat.Inc]))
 
 //@ func VecDense.MulElemVec props: C04 C05 C07(safety)
@@ -293,6 +295,7 @@ package mat
 // of the kernel ScalIncTo.
 
 //@ func VecDense.ScaleVec props: C04 C05 C07(safety)
+//@ option timeout=40000
 //@ option dead-return-ok
 //@ let av = unbox(a, *VecDense)
 //@ requires wfVD(v) && hasType(a, *VecDense) && wfVD(av)
@@ -304,7 +307,7 @@ package mat
 //@ ensures v != av ==> noCommonVec(v.mat, av.mat)
 //@ ensures [real] v == av ==> forall(i, 0, old(av.mat.N), v.mat.Data[i*v.mat.Inc] == alpha * old(av.mat.Data[i*av.mat.Inc]))
 //@ ensures [real] v.mat.Inc == 1 && old(av.mat.Inc) == 1 ==> forall(i, 0, old(av.mat.N), v.mat.Data[i] == alpha * old(av.mat.Data[i]))
-//@ ensures [real] disjoint(v.mat.Data, old(av.mat.Data)) ==> forall(i, 0, old(av.mat.N), v.mat.Data[i*v.mat.Inc] == alpha * old(av.mat.Data[i*av.mat.Inc]))
+//@ ensures [realx] disjoint(v.mat.Data, old(av.mat.Data)) ==> forall(i, 0, old(av.mat.N), v.mat.Data[i*v.mat.Inc] == alpha * old(av.mat.Data[i*av.mat.Inc]))
 
 // FINDING (CopyVec, not under contract): the contract written from the
 // documentation ("similar to the built-in copy; it copies as much as the overlap
@@ -350,7 +353,9 @@ package mat
 // sepSlices: the two slices lie in different allocations or one ends before the other starts.
 //@ spec sepSlices(d []float64, s []float64) bool = d.rid != s.rid || d.off+len(d) <= s.off || s.off+len(s) <= d.off
 
+// (several obligations of this block need more than the quick tier's solver limits: thorough tier only)
 //@ func VecDense.AddScaledVec props: C04 C05 C07(safety)
+//@ option tier=thorough
 //@ option dead-return-ok
 //@ option timeout=40000
 //@ let av = unbox(a, *VecDense)
@@ -400,7 +405,9 @@ package mat
 //    pass every Houdini check of the first round and are demoted in the second
 //    (loop 2 init of the last one times out), so that clause is left out too.
 
+// (the index obligations of the row loop need case splits beyond the quick tier's limits: thorough tier only)
 //@ func Dense.Add Dense.Sub Dense.MulElem Dense.DivElem props: C04 C05 C07(safety)
+//@ option tier=thorough
 //@ option dead-return-ok
 //@ option may-panic
 //@ option delegate-panics
